@@ -10,7 +10,7 @@ MUST_ENTER = [('a5/projections/authalic.py', 'forward'), ('a5/projections/authal
 RULE = ('latitudes phi: uniform grid over [-pi/2, pi/2] (1e5 quick / 2e6 thorough points), log-spaced approaches 1e-16..1 to 0 and to '
         '+-pi/2, exact 0 and +-pi/2, neighbouring doubles. Per phi: |forward - closed form| <= 1e-10, oddness, '
         '|inverse(forward)-phi| <= 1e-12, |inverse - exact inverse (bisection of the closed form)| <= 2e-10 with inverse(phi) called directly after forward(phi), forward repeated, strict increase between grid neighbours (spacing >= 1e-9 relative), no decrease between '
-        'adjacent doubles beyond 4 ulp; same through from_lonlat / to_lonlat in degrees. Reference = exact WGS84 closed form in a '
+        'adjacent doubles beyond 4 ulp; same through from_lonlat / to_lonlat in degrees; a second conversion of another latitude completed inside every LINE event of a conversion (own instance and the module-level one), results compared bit for bit with the solo call. Reference = exact WGS84 closed form in a '
         'pole-stable arrangement, re-validated against 50-digit mpmath at the start of the run. distinct = distinct phi; non-trivial = phi != 0, +-pi/2')
 ASSUMPTIONS = ['WGS84 ellipsoid (f = 1/298.257223563)', 'closed form relative error <= 1e-13 vs mpmath (self-test)']
 
@@ -20,6 +20,7 @@ def plan(tier, seed):
     specs = [{'part': 'grid', 'i0': i * n // 14, 'i1': (i + 1) * n // 14, 'n': n} for i in range(14)]
     specs.append({'part': 'log'})
     specs.append({'part': 'lonlat', 'n': 20000 if tier == 'quick' else 300000})
+    specs.append({'part': 'interleave', 'n': 60 if tier == 'quick' else 1500})
     return specs
 
 
@@ -101,6 +102,42 @@ def run_shard(spec, ctx):
     probe.count_only([('a5.projections.authalic', 'AuthalicProjection.forward'), ('a5.projections.authalic', 'AuthalicProjection.inverse'),
                       ('a5.core.coordinate_transforms', 'from_lonlat'), ('a5.core.coordinate_transforms', 'to_lonlat')])
     A = AuthalicProjection()
+    if spec['part'] == 'interleave':
+        # two callers on the same converter (an instance of their own, and the module-level one behind from_lonlat / to_lonlat):
+        # a second conversion of another latitude completed inside every LINE event of a first one (sys.monitoring injector).
+        # Every conversion must return, bit for bit, what it returns alone, and so must the next one.
+        import os
+        import a5
+        from rv import sched
+        inj = sched.Injector(os.path.dirname(os.path.realpath(a5.__file__)))
+        sites = set()
+        for _ in range(spec['n']):
+            x = ctx.rnd.uniform(-math.pi / 2, math.pi / 2)
+            y = ctx.rnd.choice((ctx.rnd.uniform(-math.pi / 2, math.pi / 2), -x, x, math.pi / 2 - 10 ** ctx.rnd.uniform(-12, -1), 0.0))
+            lon = ctx.rnd.uniform(-180, 180)
+            fns = {'forward': (lambda: A.forward(x)), 'inverse': (lambda: A.inverse(x)),
+                   'from_lonlat': (lambda: tuple(CT.from_lonlat((lon, math.degrees(x))))),
+                   'to_lonlat': (lambda: tuple(CT.to_lonlat((math.radians(lon) % (2 * math.pi), math.pi / 2 - x))))}
+            Bs = [lambda: A.forward(y), lambda: A.inverse(y), lambda: tuple(CT.from_lonlat((lon / 2, math.degrees(y)))),
+                  lambda: tuple(CT.to_lonlat((1.0, math.pi / 2 - y)))]
+            for name, F in fns.items():
+                want = F()
+                B = ctx.rnd.choice(Bs)
+                wantB = B()
+                for k in range(1, inj.events_in(F, 'line') + 1):
+                    st, res = inj.run(F, B, k, 'line')
+                    ctx.case(('interleave', name, x, y, k))
+                    ctx.count('conversion_interleavings')
+                    if inj.where:
+                        sites.add(inj.where[:2])
+                    case = {'fn': name, 'x': x, 'y': y, 'lon': lon, 'k': k, 'at': list(inj.where) if inj.where else None}
+                    if st != 'ok' or res != want or inj.bexc is not None or (inj.where is not None and inj.bres != wantB):
+                        ctx.fail('wrong_when_interleaved', case, got=repr(res), want=repr(want), other=repr(inj.bexc or inj.bres), other_want=repr(wantB))
+                    elif F() != want:
+                        ctx.fail('wrong_after_interleaving', case)
+        inj.close()
+        ctx.sample({'interleaving_sites': sorted('%s:%s' % s_ for s_ in sites)})
+        return
     if spec['part'] == 'grid':
         n = spec['n']
         prev = None
@@ -153,13 +190,19 @@ def run_shard(spec, ctx):
 
 
 def finalize(m, tier):
-    return {}
+    inc = []
+    if m['counters'].get('conversion_interleavings', 0) < 1000:
+        inc.append('fewer than 1000 interleaved conversions')
+    return {'inconclusive': inc}
 
 
 def replay(f, ctx):
     from a5.projections.authalic import AuthalicProjection
     from rv import geo
     c = f['case']
+    if f['kind'] in ('wrong_when_interleaved', 'wrong_after_interleaving'):
+        run_shard({'part': 'interleave', 'n': 30}, ctx)
+        return
     if 'phi' in c:
         check_phi(AuthalicProjection(), geo, c['phi'], ctx)
         if f['kind'] == 'not_strictly_increasing':
